@@ -4,15 +4,25 @@ package main
 
 import "github.com/welllog/golib/verifshim/sched"
 
+// black box: positions are reached with Push/Pop pairs (small positions only; the 2^32 wrap is
+// then covered by C10's honest run)
+func (o *obj) place(real uint32) {
+	n := real % 64
+	if o.m != 0 && o.m <= 1<<16 {
+		n = real % o.m
+	}
+	for i := uint32(0); i < n; i++ {
+		o.r.Push(1)
+		o.r.Pop()
+	}
+}
+
 func (o *obj) Describe(rec sched.OpRec) interface{} {
 	if rec.Kind == "Gosched" {
 		return []interface{}{"Gosched"}
 	}
-	switch rec.Kind {
-	case "CAS":
+	if rec.Kind == "CAS" {
 		return []interface{}{"CAS", "?", rec.Ok}
-	case "Add":
-		return []interface{}{"Add", "?", rec.Val}
 	}
 	return []interface{}{rec.Kind, "?"}
 }
